@@ -16,6 +16,16 @@ from . import universe as U
 U.SCALARS.setdefault(("float", "0.0"), 0.0)
 
 _cache: dict[str, Any] = {}
+# the object universe in TLC's order; set once per process tree BEFORE forking workers (set_universe), so that
+# the workers share the very same objects
+OBJS_T: list[dict] = []
+OBJS: list[Any] = []
+
+
+def set_universe(objs_t: list[dict]) -> None:
+    global OBJS_T, OBJS
+    OBJS_T = list(objs_t)
+    OBJS = [codec.obj_to_py(o) for o in objs_t]
 
 
 def val(term: dict):
@@ -104,12 +114,14 @@ def cond_text(c: dict, top: bool = True) -> str:
     raise core.MachineryError(f"cannot render condition {c}")
 
 
-def holds_vector(c: dict, objs: list[Any]) -> list[int]:
+def holds_vector(c: dict) -> list[int]:
     """What CPython evaluates the condition to on each object: 0 false, 1 true, 2 raises."""
     code = compile(cond_text(c), "<cond>", "eval")
     ns = namespace()
     out = []
-    for o in objs:
+    if not OBJS:
+        raise core.MachineryError("narrow_common.set_universe was not called")
+    for o in OBJS:
         try:
             out.append(1 if eval(code, ns, {"x": o}) else 0)
         except Exception:
@@ -185,7 +197,7 @@ def observe_api(arg) -> dict:
     """Route (i): constrain_value(V, constraint) and constrain_value(V, constraint.invert()) on real objects."""
     from pyanalyze.stacked_scopes import VarnameWithOrigin, constrain_value
 
-    tid, case, objs = arg
+    tid, case = arg
     ck = pyz.get_checker()
     base = {"tid": tid, "kind": "narrow", "route": "api", "v": case["v"], "c": case["c"]}
     try:
@@ -199,7 +211,7 @@ def observe_api(arg) -> dict:
         return {**base, "kind": "raised", "exc": f"{type(exc).__name__}: {exc}"}
     base["pos"] = codec.value_to_term(pos)
     base["neg"] = codec.value_to_term(neg)
-    base["holds"] = holds_vector(case["c"], objs)
+    base["holds"] = holds_vector(case["c"])
     return base
 
 
@@ -207,12 +219,12 @@ def observe_bool(arg) -> dict:
     """get_boolability(V) on the real Value and bool(o) on every real object."""
     from pyanalyze.boolability import get_boolability
 
-    tid, v, objs = arg
+    tid, v = arg
     try:
         b = get_boolability(val(v)).name
     except Exception as exc:
         return {"tid": tid, "kind": "raised", "v": v, "c": {}, "route": "boolability", "exc": f"{type(exc).__name__}: {exc}"}
-    return {"tid": tid, "kind": "bool", "v": v, "b": b, "truth": [1 if bool(o) else 0 for o in objs]}
+    return {"tid": tid, "kind": "bool", "v": v, "b": b, "truth": [1 if bool(o) else 0 for o in OBJS]}
 
 
 # --------------------------------------------------------------------------- route (ii): the visitor
@@ -265,7 +277,7 @@ def observe_visitor_chunk(arg) -> list[dict]:
             else:
                 x
     and the inferred value of the three `x` Name nodes (annotate=True)."""
-    chunk, objs = arg
+    chunk = arg
     lines = [PRELUDE.rstrip("\n")]
     for i, (_tid, case, anno) in enumerate(chunk):
         lines += [f"def f_{i}(x: {anno}) -> None:", "    x", f"    if {cond_text(case['c'])}:", "        x", "    else:", "        x"]
@@ -295,7 +307,7 @@ def observe_visitor_chunk(arg) -> list[dict]:
         out.append({
             "tid": tid, "kind": "narrow", "route": "visitor", "v": case["v"], "c": case["c"],
             "decl": codec.value_to_term(decl), "pos": codec.value_to_term(pos), "neg": codec.value_to_term(neg),
-            "holds": holds_vector(case["c"], objs), "diag": diag, "callerr": callerr,
+            "holds": holds_vector(case["c"]), "diag": diag, "callerr": callerr,
             "src": f"def f(x: {anno}): if {cond_text(case['c'])}: ...",
         })
     return out
